@@ -5656,6 +5656,8 @@ _MATCH_FUNCS = {
 # ......................................................................................................................
 # get all leaf AST types that can possibly match a given _Pattern, for search()
 
+_ASTS_LEAF_EXPR_CONTEXT = frozenset((Load, Store, Del))
+
 def _leaf_asts_default(pat: _Pattern) -> tp_Set[type[AST]] | None:
     if isinstance(pat, M_Pattern):
         return AST2ASTSLEAF[pat._types]  # will be a single type here
@@ -5672,7 +5674,7 @@ def _leaf_asts_type(pat: type) -> tp_Set[type[AST]] | None:
     if issubclass(pat, M_Pattern):
         pat = pat._types  # guaranteed to be single element here
 
-    return AST2ASTSLEAF[pat]
+    return AST2ASTSLEAF.get(pat, _EMPTY_SET)  # a primitive type (`str`, `int`) is a valid pattern but no node is one
 
 def _leaf_asts_all(pat: _Pattern) -> tp_Set[type[AST]] | None:
     return ASTS_LEAF__ALL
@@ -6290,6 +6292,9 @@ def search(
     match_func = _MATCH_FUNCS.get(pat_cls, _match_default)
     walk_all = _LEAF_ASTS_FUNCS.get(pat_cls, _leaf_asts_default)(pat)  # which AST leaf nodes we need to actually check for match
     mstate = _MatchState(True, ctx)
+
+    if not ctx and walk_all and not walk_all.isdisjoint(_ASTS_LEAF_EXPR_CONTEXT):  # without `ctx` an expr_context pattern matches every expr_context, not just its own kind
+        walk_all = walk_all | _ASTS_LEAF_EXPR_CONTEXT
 
     if walk_all is None or len(walk_all) == _LEN_ASTS_LEAF__ALL:  # checking all node types so don't need class check, if None then indeterminate and we need to check all nodes
         walk_all = True
